@@ -63,6 +63,7 @@ theorem exec_append (a b : List Step) (c : Cfg) : exec (a ++ b) c = exec b (exec
 def isPrivate (tmp target : Path) : Eff → Bool
   | .openTrunc p => p = tmp
   | .collect _ => true
+  | .encode => true
   | .write p _ _ => p = tmp
   | .close p => p = tmp
   | .rename s d => s = tmp ∧ d = target
@@ -127,6 +128,7 @@ theorem view_step {tmp target : Path} (hne : tmp ≠ target) (s : Step) (c : Cfg
     cases e with
     | openTrunc p => simp [isPrivate] at hp; subst hp; simp [applyStep, applyNormal, view, stepV]
     | collect i => simp [applyStep, applyNormal, view, stepV]
+    | encode => simp [applyStep, applyNormal, view, stepV]
     | write p x fl =>
       simp [isPrivate] at hp; subst hp
       cases fl <;> simp [applyStep, applyNormal, view, stepV]
@@ -148,6 +150,7 @@ theorem view_step {tmp target : Path} (hne : tmp ≠ target) (s : Step) (c : Cfg
     | write p x fl => simp [isPrivate] at hp; subst hp; simp [applyStep, applyFaulted, view, stepV]
     | close p => simp [isPrivate] at hp; subst hp; simp [applyStep, applyFaulted, view, stepV]
     | collect i => simp [applyStep, applyFaulted, view, stepV]
+    | encode => simp [applyStep, applyFaulted, view, stepV]
     | rename a b => simp [applyStep, applyFaulted, view, stepV]
     | pathExists p => simp [applyStep, applyFaulted, view, stepV]
     | removeIfSeen p => simp [applyStep, applyFaulted, view, stepV]
@@ -163,6 +166,7 @@ theorem frame_step {tmp target q : Path} (s : Step) (c : Cfg) (hp : isPrivate tm
     cases e with
     | openTrunc p => simp [isPrivate] at hp; subst hp; simp [applyStep, applyNormal, Fs.get_set_ne _ _ h1]
     | collect i => simp [applyStep, applyNormal]
+    | encode => simp [applyStep, applyNormal]
     | write p x fl =>
       simp [isPrivate] at hp; subst hp
       cases fl <;> simp [applyStep, applyNormal, Fs.get_append_ne _ _ h1]
@@ -184,6 +188,7 @@ theorem frame_step {tmp target q : Path} (s : Step) (c : Cfg) (hp : isPrivate tm
     | write p x fl => simp [isPrivate] at hp; subst hp; simp [applyStep, applyFaulted, Fs.get_append_ne _ _ h1]
     | close p => simp [isPrivate] at hp; subst hp; simp [applyStep, applyFaulted, Fs.get_append_ne _ _ h1]
     | collect i => simp [applyStep, applyFaulted]
+    | encode => simp [applyStep, applyFaulted]
     | rename a b => simp [applyStep, applyFaulted]
     | pathExists p => simp [applyStep, applyFaulted]
     | removeIfSeen p => simp [applyStep, applyFaulted]
@@ -202,6 +207,7 @@ theorem target_step {tmp target : Path} (hne : tmp ≠ target) (s : Step) (c : C
     cases e with
     | openTrunc p => simp [isPrivate] at hp; subst hp; simp [applyStep, applyNormal, isRen, Fs.get_set_ne _ _ hne]
     | collect i => simp [applyStep, applyNormal, isRen]
+    | encode => simp [applyStep, applyNormal, isRen]
     | write p x fl =>
       simp [isPrivate] at hp; subst hp
       cases fl <;> simp [applyStep, applyNormal, isRen, Fs.get_append_ne _ _ hne]
@@ -223,6 +229,7 @@ theorem target_step {tmp target : Path} (hne : tmp ≠ target) (s : Step) (c : C
     | write p x fl => simp [isPrivate] at hp; subst hp; simp [applyStep, applyFaulted, isRen, Fs.get_append_ne _ _ hne]
     | close p => simp [isPrivate] at hp; subst hp; simp [applyStep, applyFaulted, isRen, Fs.get_append_ne _ _ hne]
     | collect i => simp [applyStep, applyFaulted, isRen]
+    | encode => simp [applyStep, applyFaulted, isRen]
     | rename a b => simp [applyStep, applyFaulted, isRen]
     | pathExists p => simp [applyStep, applyFaulted, isRen]
     | removeIfSeen p => simp [applyStep, applyFaulted, isRen]
